@@ -1,4 +1,8 @@
 import GeosModel.Proofs.LinRef.Top
+import GeosModel.Proofs.LinRef.Extract
+import GeosModel.Proofs.LinRef.Project
+import GeosModel.Proofs.Lines.Merge
+import GeosModel.Proofs.Lines.Noding
 /-!
 # C19 — linework operations preserve the point set and their structural contracts
 
@@ -12,26 +16,8 @@ namespace GeosModel.LinRef
 /-- **loc_len_inverse** — `getLength (getLocation ℓ) = ℓ` for every `0 ≤ ℓ ≤ total`
 (`LengthLocationMap::getLocation` followed by `LengthLocationMap::getLength`). -/
 theorem loc_len_inverse (l : Line Rat) (hwf : l.WF = true) (hnn : l.NonNeg) (ℓ : Rat)
-    (h0 : 0 ≤ ℓ) (h1 : ℓ ≤ totalLen l) : getLength l (getLocation l ℓ) = ℓ := by
-  have hneg : ¬ ℓ < 0 := by grind
-  simp only [getLocation, hneg, if_false, getLocationForward]
-  by_cases hz : ℓ ≤ 0
-  · have : ℓ = 0 := by grind
-    subst this
-    simp only [Rat.le_refl, if_true, getLength_start l hwf]
-  · simp only [hz, if_false]
-    cases hr : locFwdAux ℓ 0 (items l) with
-    | some a =>
-      simp only [Option.getD_some, getLength]
-      exact lenAux_locFwdAux ℓ (items l) 0 a (okItems_itemsFrom 0 l) (by grind) hr
-    | none =>
-      exfalso
-      have hl : l ≠ [] := by
-        intro h; subst h
-        simp [totalLen, sumFrom] at h1; grind
-      have := locFwdAux_none ℓ (items l) 0 (by grind) (lastIsEol_itemsFrom 0 l hl) hr
-      rw [← totalLen_eq] at this
-      grind
+    (h0 : 0 ≤ ℓ) (h1 : ℓ ≤ totalLen l) : getLength l (getLocation l ℓ) = ℓ :=
+  loc_len_inverse' l hwf hnn ℓ h0 h1
 
 /-- **loc_clamp** — (1) a length beyond the end maps to the end location; (2) a negative length is measured
 from the end; (3) a length at or before `-total` maps to the start location; (4) so for `-total ≤ ℓ < 0` the
@@ -108,6 +94,115 @@ theorem loc_monotone (l : Line Rat) (ℓ1 ℓ2 : Rat) (h : ℓ1 ≤ ℓ2) (hs : 
     simp only [n1, hs, if_true]
     exact loc_forward_monotone l _ _ (by grind)
 
+/-- piecewise length of extracted lines on a geometry with several components (cf. `stepLen`/`outLen` for one component) -/
+def stepLenL (l : Line Rat) (p q : Loc Rat) : Rat :=
+  (l.getD p.comp []).getD p.seg 0 * ((if q.seg = p.seg then q.frac else 1) - p.frac)
+
+def pathLenL (l : Line Rat) : List (Loc Rat) → Rat
+  | p :: q :: r => stepLenL l p q + pathLenL l (q :: r)
+  | _ => 0
+
+def outLenL (l : Line Rat) : List (List (Loc Rat)) → Rat
+  | [] => 0
+  | x :: r => pathLenL l x + outLenL l r
+
+/-- the full statement of the substring-length clause: any lineal geometry (several components allowed).  Not proved. -/
+def extract_length_full : Prop :=
+  ∀ (l : Line Rat), l.WF = true → l.NonNeg → ∀ a b : Rat, 0 ≤ a → a ≤ b → b ≤ totalLen l →
+    outLenL l (extractLine l a b) = b - a
+
+/-- **extract_length** (PARTIAL: single-component lines, i.e. LineStrings; for MultiLineStrings the substring is covered
+only by the `linref` correspondence and the `oracle` stream) — the line extracted by `LengthIndexedLine::extractLine(a, b)`
+(`GEOSLineSubstring` with fractions a/total, b/total) for `0 ≤ a ≤ b ≤ total`:
+(1) is a sequence of locations in which consecutive ones lie on one segment of the input, in order (`GoodStep`) — so no
+input vertex is skipped and the pieces are straight —, and (2) its length, measured piece by piece from the segment
+lengths (`outLen`/`stepLen`), is exactly `b − a`. -/
+theorem extract_length (comp : List Rat) (hne : comp ≠ []) (hnn : ∀ s ∈ comp, 0 ≤ s) (a b : Rat)
+    (h0 : 0 ≤ a) (hab : a ≤ b) (hb : b ≤ totalLen [comp]) :
+    (∀ line ∈ extractLine [comp] a b, ChainP (GoodStep comp) line) ∧ outLen comp (extractLine [comp] a b) = b - a := by
+  have hwf : Line.WF [comp] = true := by
+    cases comp with
+    | nil => exact absurd rfl hne
+    | cons x t => simp [Line.WF]
+  have hnn' : Line.NonNeg [comp] := by
+    intro c hc s hs
+    simp only [List.mem_singleton] at hc
+    subst hc; exact hnn s hs
+  obtain ⟨i, f, hs, hf0, hf1, hi, hfi⟩ := getLocation_single comp hne hnn a h0 (by grind)
+  obtain ⟨j, g, he, hg0, hg1, hj, hgj⟩ := getLocation_single comp hne hnn b (by grind) hb
+  have hle : (⟨0, i, f⟩ : Loc Rat).le ⟨0, j, g⟩ := by
+    rw [← hs, ← he]
+    exact loc_monotone [comp] a b hab (Or.inl h0)
+  have hext : extractLine [comp] a b = computeLinear [comp] ⟨0, i, f⟩ ⟨0, j, g⟩ := by
+    simp only [extractLine, extractLocs, clampIndex_id [comp] a h0 (by grind), clampIndex_id [comp] b (by grind) hb,
+      getLocationR, resolveHigher_single, ite_self, hs, he, extract]
+    have : (⟨0, j, g⟩ : Loc Rat).lt ⟨0, i, f⟩ = false := hle
+    simp [this]
+  have hga : gpos comp ⟨0, i, f⟩ = a := by
+    rw [← getLength_single comp ⟨0, i, f⟩ rfl hi, ← hs]
+    exact loc_len_inverse [comp] hwf hnn' a h0 (by grind)
+  have hgb : gpos comp ⟨0, j, g⟩ = b := by
+    rw [← getLength_single comp ⟨0, j, g⟩ rfl hj, ← he]
+    exact loc_len_inverse [comp] hwf hnn' b (by grind) hb
+  rw [hext, ← hga, ← hgb]
+  exact computeLinear_length comp i j f g hf0 hf1 hg0 hg1 hi hfi hj hgj hle
+
+/-! non-vacuity: substring of a three-segment line from 1/2 to 9/2 keeps both interior vertices -/
+example : extractLine [[1, 2, 3]] (1/2 : Rat) (9/2) = [[⟨0, 0, 1/2⟩, ⟨0, 1, 0⟩, ⟨0, 2, 0⟩, ⟨0, 2, 1/2⟩]] ∧
+    outLen [1, 2, 3] (extractLine [[1, 2, 3]] (1/2 : Rat) (9/2)) = 4 := by decide +kernel
+
+/-- the full statement of the round-trip clause, for any lineal geometry: on every geometry whose segments have positive
+length and on which the square roots taken by the code are exact, the point interpolated at the projected length of `p`
+exists and is at least as close to `p` as every point of the geometry -/
+def project_interpolate_full : Prop :=
+  ∀ (sq : Rat → Rat) (g : Geo Rat) (p : P2 Rat), (∀ s ∈ g.flatMap pairs, GoodSeg sq p s) → g.flatMap pairs ≠ [] →
+    ∃ q, interpolate sq g (project sq g p) = some q ∧
+      ∀ s ∈ g.flatMap pairs, ∀ t, 0 ≤ t → t ≤ 1 → d2 p q ≤ d2 p (lerp s.1 s.2 t)
+
+/-- **project_interpolate** (PARTIAL: one component — a LineString — without repeated points; exact arithmetic; the
+code's `sqrt` is any function `sq` that is an exact, non-negative square root at the arguments that occur: the squared
+segment lengths and the squared distances from `p` to the vertices, hypothesis `GoodSeg`).
+`GEOSInterpolate(g, GEOSProject(g, p))` is a point of the line and no point of the line is closer to `p`. -/
+theorem project_interpolate (sq : Rat → Rat) (pts : List (P2 Rat)) (p : P2 Rat)
+    (hne : pairs pts ≠ []) (hg : ∀ s ∈ pairs pts, GoodSeg sq p s) :
+    ∃ q, interpolate sq [pts] (project sq [pts] p) = some q ∧
+      (∃ s ∈ pairs pts, ∃ t, 0 ≤ t ∧ t ≤ 1 ∧ q = lerp s.1 s.2 t) ∧
+      ∀ s ∈ pairs pts, ∀ t, 0 ≤ t → t ≤ 1 → d2 p q ≤ d2 p (lerp s.1 s.2 t) :=
+  project_interpolate_single sq pts p hne hg
+
+/-- the square root used by the witness below: exact at 9, 16, 25, 64 -/
+def sqW (x : Rat) : Rat := if x = 64 then 8 else if x = 16 then 4 else if x = 9 then 3 else if x = 25 then 5 else 0
+
+/-- **the full statement is false for geometries with several components** (a finding, replayed on the implementation
+by the `oracle_multi` stream): for MULTILINESTRING((0 0,4 0),(8 3,12 3)) and p = (8 0) the nearest point is the start (8 3)
+of the second component, at length 4 = the end of the first component; `getLocationForward` resolves a length that
+falls on a component boundary to the *end of the earlier* component, so the interpolated point is (4 0), at distance 4 > 3. -/
+theorem project_interpolate_full_false : ¬ project_interpolate_full := by
+  intro h
+  have hg : ∀ s ∈ ([[⟨0, 0⟩, ⟨4, 0⟩], [⟨8, 3⟩, ⟨12, 3⟩]] : Geo Rat).flatMap pairs, GoodSeg sqW ⟨8, 0⟩ s := by
+    intro s hs
+    simp only [List.flatMap_cons, List.flatMap_nil, pairs, List.append_nil, List.cons_append, List.nil_append,
+      List.mem_cons, List.not_mem_nil, or_false] at hs
+    rcases hs with rfl | rfl <;> (unfold GoodSeg IsSqrt; decide +kernel)
+  obtain ⟨q, hq, hn⟩ := h sqW [[⟨0, 0⟩, ⟨4, 0⟩], [⟨8, 3⟩, ⟨12, 3⟩]] ⟨8, 0⟩ hg (by decide +kernel)
+  have hval : interpolate sqW ([[⟨0, 0⟩, ⟨4, 0⟩], [⟨8, 3⟩, ⟨12, 3⟩]] : Geo Rat)
+      (project sqW [[⟨0, 0⟩, ⟨4, 0⟩], [⟨8, 3⟩, ⟨12, 3⟩]] ⟨8, 0⟩) = some ⟨4, 0⟩ := by decide +kernel
+  rw [hval] at hq
+  simp only [Option.some.injEq] at hq
+  subst hq
+  have := hn (⟨8, 3⟩, ⟨12, 3⟩) (by simp [pairs]) 0 (by decide +kernel) (by decide +kernel)
+  revert this
+  decide +kernel
+
+/-! non-vacuity of `project_interpolate`: an L-shaped line with Pythagorean distances -/
+example : (∀ s ∈ pairs ([⟨0, 0⟩, ⟨4, 0⟩, ⟨4, 3⟩] : List (P2 Rat)), GoodSeg sqW ⟨8, 0⟩ s) ∧
+    project sqW [[⟨0, 0⟩, ⟨4, 0⟩, ⟨4, 3⟩]] (⟨8, 0⟩ : P2 Rat) = 4 ∧
+    interpolate sqW [[⟨0, 0⟩, ⟨4, 0⟩, ⟨4, 3⟩]] (4 : Rat) = some ⟨4, 0⟩ := by
+  refine ⟨?_, by decide +kernel, by decide +kernel⟩
+  intro s hs
+  simp only [pairs, List.mem_cons, List.not_mem_nil, or_false] at hs
+  rcases hs with rfl | rfl <;> (unfold GoodSeg IsSqrt; decide +kernel)
+
 /-! non-vacuity: a two-component line with a zero-length component in between -/
 example : let l : Line Rat := [[1, 2], [0], [3]]
     l.WF = true ∧ getLocation l (3/2) = ⟨0, 1, 1/4⟩ ∧ getLength l ⟨0, 1, 1/4⟩ = 3/2 ∧
@@ -115,3 +210,170 @@ example : let l : Line Rat := [[1, 2], [0], [3]]
     getLocation l (-100) = ⟨0, 0, 0⟩ := by decide +kernel
 
 end GeosModel.LinRef
+
+/-!
+## Part 2: line merging (`Model/Lines/Merge.lean`)
+
+The chaining algorithm itself (`mergeModel`) is executable but **not** proved; what is proved is the soundness of the
+executable contract checker `mergeCheck`, which the driver runs on the output of GEOS (and of `mergeModel`) for every case:
+`mergeCheck … = true` entails the logical contract `MergeOK`, from which the property's clauses follow.
+-/
+namespace GeosModel.Lines
+
+/-- **merge_check_sound** — if the checker accepts a candidate output, the output satisfies the merge contract -/
+theorem merge_check_sound (directed : Bool) (es : List Edge) (chains : List Chain)
+    (h : mergeCheck directed es chains = true) : MergeOK directed es chains :=
+  merge_check_sound' directed es chains h
+
+/-- **merge_preserves_edges** — the multiset of underlying input lines is unchanged, hence (for *any* geometry attached
+to the edges) the merged lines have the same point set, and (for any length function) the same total length -/
+theorem merge_preserves_edges (directed : Bool) (es : List Edge) (chains : List Chain)
+    (h : MergeOK directed es chains) :
+    (chains.flatten.map (·.e)).Perm es ∧
+    (∀ (P : Type) (on : Edge → P → Prop) (p : P), (∃ c ∈ chains, ∃ d ∈ c, on d.e p) ↔ (∃ e ∈ es, on e p)) ∧
+    (∀ w : Edge → Rat, sumW w (chains.flatten.map (·.e)) = sumW w es) := by
+  refine ⟨h.perm, ?_, fun w => sumW_perm w h.perm⟩
+  intro P on p
+  constructor
+  · rintro ⟨c, hc, d, hd, ho⟩
+    refine ⟨d.e, ?_, ho⟩
+    apply h.perm.subset
+    exact List.mem_map.mpr ⟨d, List.mem_flatten.mpr ⟨c, hc, hd⟩, rfl⟩
+  · rintro ⟨e, he, ho⟩
+    have := h.perm.symm.subset he
+    obtain ⟨d, hd, rfl⟩ := List.mem_map.mp this
+    obtain ⟨c, hc, hdc⟩ := List.mem_flatten.mp hd
+    exact ⟨c, hc, d, hdc, ho⟩
+
+/-- **merge_maximal** (undirected) — at a node of degree exactly two no output line stops, except a closed loop that
+starts and ends there, and no two different output lines meet -/
+theorem merge_maximal (es : List Edge) (chains : List Chain) (h : MergeOK false es chains) :
+    (∀ c ∈ chains, ∀ n ∈ c.ends, degree es n = 2 → c.closed = true) ∧
+    (∀ (i j : Nat) (_ : i < j) (hj : j < chains.length) (n : Int),
+      n ∈ (chains[i]'(by omega)).ends → n ∈ chains[j].ends → degree es n ≠ 2) := by
+  constructor
+  · intro c hc n hn hd
+    cases hcl : c.closed with
+    | true => rfl
+    | false =>
+      have := h.stop c hc hcl n hn
+      simp [stopOK, hd] at this
+  · intro i j hij hj n hi hjn hd
+    have := h.apart i j hij hj n hi hjn
+    simp [stopOK, hd] at this
+
+/-- **merge_directed_respects** — directed merging traverses every input line forwards, joins lines head-to-tail at
+degree-2 nodes, and stops at a degree-2 node only where both lines leave it or both enter it -/
+theorem merge_directed_respects (es : List Edge) (chains : List Chain) (h : MergeOK true es chains) :
+    (∀ c ∈ chains, ∀ d ∈ c, d.fwd = true) ∧
+    (∀ c ∈ chains, ∀ k (hk : k + 1 < c.length), c[k].e.b = c[k + 1].e.a ∧ degree es c[k].e.b = 2) ∧
+    (∀ c ∈ chains, c.closed = false → ∀ n ∈ c.ends, degree es n = 2 → outCount es n = 2 ∨ inCount es n = 2) := by
+  have hf := h.fwd rfl
+  refine ⟨hf, ?_, ?_⟩
+  · intro c hc k hk
+    have hj := h.walk c hc k hk
+    have f1 := hf c hc c[k] (List.getElem_mem _)
+    have f2 := hf c hc c[k + 1] (List.getElem_mem _)
+    simpa [Joined, DEdge.dst, DEdge.src, f1, f2] using hj
+  · intro c hc hcl n hn hd
+    have := h.stop c hc hcl n hn
+    simpa [stopOK, hd] using this
+
+/-! non-vacuity: a path 1–2–3 with a branch at 3, and an isolated two-edge loop -/
+example : let es : List Edge := [⟨0, 1, 2⟩, ⟨1, 3, 2⟩, ⟨2, 3, 4⟩, ⟨3, 3, 5⟩, ⟨4, 7, 8⟩, ⟨5, 8, 7⟩]
+    mergeCheck false es (mergeModel false es) = true ∧ (mergeModel false es).length = 4 ∧
+    mergeCheck false es (es.map fun e => [⟨e, true⟩]) = false ∧
+    mergeCheck true es (mergeModel true es) = true ∧ (mergeModel true es).length = 5 := by decide +kernel
+
+/-!
+## Part 3: noding, polygonizing, shared paths — soundness of the exact contract checkers (`Model/Lines/Noding.lean`)
+
+SPEC + correspondence: that GEOS meets these contracts is *observed* per generated case by running the checkers on its
+output; the theorems say what an accepting answer means.  `Kernel.segRel` is the exact intersection classifier of
+`Base/Kernel.lean`.
+-/
+open GeosModel.Kernel
+
+/-- **noded_check_sound** — if `nodeCheck` accepts (input lines, output lines) then, for the output segments `o`:
+(1) any two of them are disjoint or have exactly one common point which is an endpoint of both — no interior
+intersection, no overlap (completeness of the pairwise loop); (2) every output segment has both ends within the
+tolerance of one input segment; (3) every non-degenerate input segment `u` is covered: its end is reachable from its start
+through output segments that lie within the tolerance of `u`.  With tolerance 0, (2)+(3) say the point sets are equal. -/
+theorem noded_check_sound (t : Tol) (inp out : List (List Pt)) (h : nodeCheck t inp out = true) :
+    let o := out.flatMap segsOf
+    let i := inp.flatMap segsOf
+    (∀ (a b : Nat) (_ : a < b) (hb : b < o.length),
+      segRel (o[a]'(by omega)).a (o[a]'(by omega)).b o[b].a o[b].b = .disjoint ∨
+      (segRel (o[a]'(by omega)).a (o[a]'(by omega)).b o[b].a o[b].b = .point false ∧ sharesEndpoint (o[a]'(by omega)) o[b] = true)) ∧
+    (∀ s ∈ o, ∃ u ∈ i, near t u s.a = true ∧ near t u s.b = true) ∧
+    (∀ u ∈ i, u.a ≠ u.b → Reach (o.filter fun s => near t u s.a && near t u s.b) u.a u.b) := by
+  simp only [nodeCheck, Bool.and_eq_true] at h
+  obtain ⟨⟨⟨_, hn⟩, hnear⟩, hcov⟩ := h
+  refine ⟨?_, ?_, ?_⟩
+  · intro a b hab hb
+    have := allPairs_sound properPair _ hn a b hab hb
+    unfold properPair at this
+    split at this
+    · left; assumption
+    · right; rename_i heq; exact ⟨heq, this⟩
+    · simp at this
+  · intro s hs
+    simp only [nearAll, List.all_eq_true, List.any_eq_true, Bool.and_eq_true] at hnear
+    exact hnear s hs
+  · intro u hu hne
+    simp only [coverAll, List.all_eq_true] at hcov
+    apply covered_sound
+    apply hcov
+    simp only [List.mem_filter, bne_iff_ne, ne_eq]
+    exact ⟨hu, hne⟩
+
+/-- **polygonize_check_sound** — if `polyCore` accepts then every polygon ring is a chain of input lines, no input line
+bounds two rings on the same side, and (full mode) every input line with ≥ 2 distinct points bounds a polygon or is one of
+the reported dangles, cut edges, or part of a reported invalid ring -/
+theorem polygonize_check_sound (full : Bool) (lines : List InLine) (o : PolyOut) (h : polyCore full lines o = true) :
+    ∃ used, usesOf (lines.filter fun ln => 2 ≤ ln.pts.length) o.polys = some used ∧ used.Nodup ∧
+      (full = true → ∃ dIds cIds,
+        matchWhole (lines.filter fun ln => 2 ≤ ln.pts.length) o.dangles [] = some dIds ∧
+        matchWhole (lines.filter fun ln => 2 ≤ ln.pts.length) o.cuts [] = some cIds ∧
+        ∀ ln ∈ lines, 2 ≤ ln.pts.length →
+          (∃ u ∈ used, u.1 = ln.id) ∨ ln.id ∈ dIds ∨ ln.id ∈ cIds ∨
+          ln.id ∈ invalidIds (lines.filter fun ln => 2 ≤ ln.pts.length) o.invalid) := by
+  unfold polyCore at h
+  simp only at h
+  split at h
+  · simp at h
+  · rename_i used hu
+    simp only [Bool.and_eq_true, Bool.or_eq_true, Bool.not_eq_eq_eq_not, Bool.not_true] at h
+    refine ⟨used, hu, nodupB_sound used h.1, ?_⟩
+    intro hf
+    rcases h.2 with h2 | h2
+    · simp [hf] at h2
+    · split at h2
+      · rename_i dIds cIds hd hc
+        refine ⟨dIds, cIds, hd, hc, ?_⟩
+        intro ln hl hlen
+        simp only [List.all_eq_true, Bool.or_eq_true, List.any_eq_true, beq_iff_eq, List.contains_iff_mem] at h2
+        have := h2 ln (List.mem_filter.mpr ⟨hl, by simpa using hlen⟩)
+        rcases this with ((h3 | h3) | h3) | h3
+        · left; exact h3
+        · right; left; exact h3
+        · right; right; left; exact h3
+        · right; right; right; exact h3
+      · simp at h2
+
+/-- **shared_check_sound** — if `sharedCore` accepts then every segment of a path reported "same direction" runs the same
+way along a segment of g1 and a segment of g2 that both contain it, and every segment reported "opposite" runs opposite ways -/
+theorem shared_check_sound (g1 g2 same opp : List (List Pt)) (h : sharedCore g1 g2 same opp = true) :
+    let s1 := (g1.flatMap segsOf).filter fun s => s.a != s.b
+    let s2 := (g2.flatMap segsOf).filter fun s => s.a != s.b
+    (∀ o ∈ same.flatMap segsOf, ∃ d1 ∈ dirsIn s1 o, ∃ d2 ∈ dirsIn s2 o, d1 = d2) ∧
+    (∀ o ∈ opp.flatMap segsOf, ∃ d1 ∈ dirsIn s1 o, ∃ d2 ∈ dirsIn s2 o, d1 ≠ d2) := by
+  simp only [sharedCore, Bool.and_eq_true, List.all_eq_true, List.any_eq_true, beq_iff_eq, bne_iff_ne, ne_eq] at h
+  exact ⟨fun o ho => h.1 o ho, fun o ho => h.2 o ho⟩
+
+/-! non-vacuity: a crossing that is noded at (1,1) is accepted with tolerance 0, the un-noded crossing is rejected -/
+example : nodeCheck ⟨0, 1⟩ [[⟨0, 0⟩, ⟨2, 2⟩], [⟨0, 2⟩, ⟨2, 0⟩]]
+    [[⟨0, 0⟩, ⟨1, 1⟩], [⟨1, 1⟩, ⟨2, 2⟩], [⟨0, 2⟩, ⟨1, 1⟩], [⟨1, 1⟩, ⟨2, 0⟩]] = true ∧
+    nodeCheck ⟨0, 1⟩ [[⟨0, 0⟩, ⟨2, 2⟩], [⟨0, 2⟩, ⟨2, 0⟩]] [[⟨0, 0⟩, ⟨2, 2⟩], [⟨0, 2⟩, ⟨2, 0⟩]] = false := by decide
+
+end GeosModel.Lines
